@@ -178,6 +178,7 @@ func checkC20(w *World, r *Report) {
 	}
 	r.floor("writes to the attribute cache map", nWrites, 3)
 	w.checkKeyedAccess(r, keyT)
+	w.checkEntriesOnlyUnderKeys(r, keyT, entryT)
 }
 
 // keyRef: the cache key as one function sees it — a local literal (typ/attr = the values stored
@@ -1039,4 +1040,93 @@ func blockReachesAvoiding(from, to, avoid *ssa.BasicBlock) bool {
 		return false
 	}
 	return walk(from)
+}
+
+
+// checkEntriesOnlyUnderKeys — R20.7: a resolved lookup (attributeCacheEntry) is kept nowhere but
+// as the value of a map keyed by the whole (type, attribute) key.  Decided on types: no
+// package-level variable and no type declared in the package contains the entry type on a path
+// that does not go through map[attributeCacheKey].  A second store in front of or beside the
+// cache — an array indexed by a hash, a per-name map, a "last lookup" field — answers a lookup
+// with the entry of whichever other lookup shares its slot.
+func (w *World) checkEntriesOnlyUnderKeys(r *Report, keyT, entryT types.Type) {
+	var holds func(t types.Type, seen map[types.Type]bool) string
+	holds = func(t types.Type, seen map[types.Type]bool) string {
+		if t == nil || seen[t] {
+			return ""
+		}
+		seen[t] = true
+		if types.Identical(t, entryT) {
+			return "the entry"
+		}
+		switch x := t.(type) {
+		case *types.Named:
+			if ta := x.TypeArgs(); ta != nil {
+				for i := 0; i < ta.Len(); i++ {
+					if p := holds(ta.At(i), seen); p != "" {
+						return x.Obj().Name() + "[…] of " + p
+					}
+				}
+			}
+			if x.Obj().Pkg() != w.Pkg.Types {
+				return ""
+			}
+			if p := holds(x.Underlying(), seen); p != "" {
+				return x.Obj().Name() + " holding " + p
+			}
+		case *types.Alias:
+			return holds(types.Unalias(x), seen)
+		case *types.Pointer:
+			return holds(x.Elem(), seen)
+		case *types.Slice:
+			if p := holds(x.Elem(), seen); p != "" {
+				return "a slice of " + p
+			}
+		case *types.Array:
+			if p := holds(x.Elem(), seen); p != "" {
+				return "an array of " + p
+			}
+		case *types.Chan:
+			if p := holds(x.Elem(), seen); p != "" {
+				return "a channel of " + p
+			}
+		case *types.Map:
+			if types.Identical(x.Key(), keyT) && types.Identical(x.Elem(), entryT) {
+				return ""
+			}
+			if p := holds(x.Elem(), seen); p != "" {
+				return "a map keyed by " + x.Key().String() + " of " + p
+			}
+			return holds(x.Key(), seen)
+		case *types.Struct:
+			for i := 0; i < x.NumFields(); i++ {
+				if p := holds(x.Field(i).Type(), seen); p != "" {
+					return "field " + x.Field(i).Name() + ": " + p
+				}
+			}
+		}
+		return ""
+	}
+	scope := w.Pkg.Types.Scope()
+	n := 0
+	for _, name := range scope.Names() {
+		obj := scope.Lookup(name)
+		var t types.Type
+		switch o := obj.(type) {
+		case *types.Var:
+			t = o.Type()
+		case *types.TypeName:
+			if types.Identical(o.Type(), entryT) {
+				continue
+			}
+			t = o.Type().Underlying()
+		default:
+			continue
+		}
+		n++
+		if p := holds(t, map[types.Type]bool{}); p != "" {
+			r.bad("R20.7", "("+name+")", "resolved lookups are kept only under whole keys", w.posOf(obj.Pos()), name+" keeps resolved lookups outside map[attributeCacheKey] ("+p+"): whatever selects the slot there is not the (type, attribute) pair, so a lookup can be answered with the entry resolved for another one")
+		}
+	}
+	r.ok("R20.7", "(package scope)", "resolved lookups are kept only under whole keys", "-", fmt.Sprintf("%d package-level variables and types hold no attributeCacheEntry outside the keyed map", n), true)
 }
